@@ -384,6 +384,10 @@ func (vc *VC) execBlock(b *ssa.BasicBlock, _ *Heap) {
 			return
 		}
 		reach = vc.define(fmt.Sprintf("reach_b%d", b.Index), SBool, or(edges...))
+		if vc.blockReach == nil {
+			vc.blockReach = map[*ssa.BasicBlock]string{}
+		}
+		vc.blockReach[b] = reach
 		h = vc.mergeHeaps(b, preds)
 		// phis
 		for _, in := range b.Instrs {
